@@ -253,6 +253,15 @@ fn decode_frame(
             .into()
         }
         Kind::GoAway => {
+            if !head.stream_id().is_zero() {
+                // The GOAWAY frame applies to the connection, not a specific
+                // stream. An endpoint MUST treat a GOAWAY frame with a stream
+                // identifier other than 0x0 as a connection error of type
+                // PROTOCOL_ERROR.
+                proto_err!(conn: "invalid GO_AWAY stream ID; stream={:?}", head.stream_id());
+                return Err(Error::library_go_away(Reason::PROTOCOL_ERROR));
+            }
+
             let res = frame::GoAway::load(&bytes[frame::HEADER_LEN..]);
             res.map_err(|e| {
                 proto_err!(conn: "failed to load GO_AWAY frame; err={:?}", e);
